@@ -25,7 +25,7 @@ def _strict(f):
     return g
 
 
-FUNCS = {'SUM': _strict(lambda *a: sum(a)), 'ABS': _strict(lambda x: abs(x)), 'ID': lambda x: x}
+FUNCS = {'SUM': _strict(lambda *a: sum(a)), 'ABS': _strict(lambda x: abs(x)), 'ID': lambda x: x, 'EV': lambda t: EV_TEXTS[t]}
 
 int_leaf = st.one_of(st.sampled_from(['2', '3', '5', '7', '11', '13', '17', '19', '23', '1', '4', '6', '8', '9', '10', '100']).map(lambda s: ['num', s]),
                      st.sampled_from(['v_a', 'v_b', 'v_d', 'v_f']).map(lambda n: ['var', n]),
@@ -34,6 +34,9 @@ leaf = st.one_of(int_leaf, int_leaf,
                  st.sampled_from(['0.5', '0.25', '0.75', '1.5', '2.25', '0.125', '.5', '10.0']).map(lambda s: ['dec', s]),
                  st.sampled_from(['v_c', 'v_e']).map(lambda n: ['var', n]), st.just(['cell', 'D4']))
 
+EV_TEXTS = {'1+1': 2, '2*3': 6, '10-3-2': 5, '7': 7, '(1+2)*3': 9, '8/2/2': 2.0, '-3*2': -6}
+ev_leaf = st.sampled_from(sorted(EV_TEXTS)).map(lambda t: ['call', 'EV', [['str', t, '"']]])      # a custom function that evaluates its text argument on the same parser
+leaf = st.one_of(leaf, leaf, leaf, ev_leaf)
 arith_tree = gf.tree_strategy(leaf, calls=[('SUM', (1, 3)), ('ABS', (1, 1)), ('ID', (1, 1))], max_leaves=10)
 int_tree = gf.tree_strategy(int_leaf, calls=[('ID', (1, 1))], ops=['+', '-', '*'], max_leaves=4)
 
@@ -166,6 +169,7 @@ def check(case):
                     except Unspecified:
                         raise Skip('reference-unspecified')
     env = Env(vars=VARS, cells=CELLS, funcs={'ID': lambda x: x})
+    env.P.set_function('EV', lambda text: env.P.parse(text)['result'])
     texts = [('minimal', gf.render(t, 'min')), ('full', gf.render(t, 'full')), ('redundant', gf.render(gf.add_redundant(t, case['picks']), 'min'))]
     for name, text in texts:
         r = env.parse(text)
@@ -194,6 +198,8 @@ def structure(t):
         out.append('amp')
     if any(n[0] == 'call' for n in gf.walk(t)):
         out.append('call')
+    if sum(1 for n in gf.walk(t) if n[0] == 'call' and n[1] == 'EV') >= 2:
+        out.append('two-nested-evaluations')
     return out
 
 
@@ -225,6 +231,7 @@ def check_depth(case):
     if isinstance(want, Err):
         raise Skip('zero-divisor')
     env = Env(vars=VARS, cells=CELLS, funcs={'ID': lambda x: x})
+    env.P.set_function('EV', lambda text: env.P.parse(text)['result'])
     n = case['wrap']
     inner = gf.render(t, 'min')
     texts = [('%d redundant pairs around the whole formula' % n, '(' * n + inner + ')' * n)]
@@ -273,7 +280,7 @@ LAWS = [
         strategy=st.fixed_dictionaries({'fail': st.lists(st.sampled_from(FAILING), min_size=1, max_size=60)}), nontrivial=lambda c: len(c['fail']) >= 10,
         rule='1-60 evaluations that fail inside open parentheses (unknown names, truncated formulas, stray characters), then four parenthesised formulas on the same and on a fresh parser: values unchanged'),
     Law('tree_value', check, strategy=top_tree(), classes=classes, nontrivial=nontrivial, quick=12000, thorough=300000, shards=(16, 16),
-        required=('mixed-levels', 'right-compound-same-level', 'neg-under-binary', 'comparison', 'amp', 'call', 'grouping-sensitive'),
+        required=('mixed-levels', 'right-compound-same-level', 'neg-under-binary', 'comparison', 'amp', 'call', 'grouping-sensitive', 'two-nested-evaluations'),
         rule='tree rendered three ways (minimal parentheses per the stated precedence, every sub-expression parenthesised, minimal plus generated redundant pairs); each must evaluate to the native value of the tree '
              '(ints as ints, floats bit-identical, booleans, concatenated text, #DIV/0!); non-trivial = two binary operators of different levels, a compound right operand of the same level or a unary minus under a binary operator, '
              'AND some re-association of the minimal rendering evaluates differently (a precedence slip would be visible)'),
